@@ -150,6 +150,7 @@ int main(int argc, char **argv)
         if (pid == 0) {
             out = fopen(argv[4], "a");
             signal(SIGABRT, crash_handler); signal(SIGSEGV, crash_handler); signal(SIGBUS, crash_handler);
+            signal(SIGALRM, crash_handler); alarm(120);
             fprintf(stderr, "#HIST %d\n", h); fflush(stderr);
             rs = seed * 2654435761u + (uint64_t)h * 0x9E3779B97F4A7C15ull + 88172645463325252ull; rnd();
             history(h);
